@@ -14,3 +14,19 @@ NA.update({
  "C18": "serializer and parser are both third-party Rio/quick-xml, I/O-buffered; sophia's own code on the path is a term conversion",
  "C20": "every clause flows through core::fmt / FromStr of std (probe: CBMC exhausted 13.8 GB on the i32 instance); float formatting is a declared weak target",
 })
+
+k("C05",
+  "Bounded model checking of the real permutation enumerator behind RDFC-1.0's n-degree hash: for n<=4 pairwise distinct symbolic elements CBMC proves exactly n! "
+  "callbacks, each a permutation of the input, all pairwise different, and that a callback error stops the enumeration and is propagated. Partial: the rest of C05 "
+  "(hashing, issuer, iff) is outside the claim.",
+  "Trusted: Kani/CBMC. Outside: SHA-2, BTreeMap<Rc<str>>, format!-built identifiers (not encodable: DESIGN.md probes 19,20,24); n>4.",
+  "Kani proof harnesses over symbolic distinct elements and symbolic failure position, CBMC/SAT",
+  "DESIGN.md 4 C05")
+
+k("C16",
+  "For each of the five matching iterators and the N-Triples escaper, CBMC decides (recursion unwinding assertion with a per-function recursion bound of 2, "
+  "3 skipped rows / 4 escaped bytes) that the function does not re-enter itself per element; a failure is confirmed natively with 10^6 elements on a 2 MiB "
+  "stack in dev and release builds before it is reported. Partial: SPARQL graph_rec, JSON-LD list recursion and Turtle list output are outside.",
+  "Trusted: Kani/CBMC; ordered-set model for BTreeSet; the stack itself is only observed in the native replay.",
+  "CBMC recursion-unwinding assertion as oracle on Kani harnesses; native 2 MiB-stack replay",
+  "DESIGN.md 4 C16")
